@@ -8,6 +8,7 @@ Require Import Urcu.Gp.GpExec.
 Require Import Urcu.Gp.GpMb.
 Require Import Urcu.Gp.GpQsbr.
 Require Import Urcu.Gp.GpMbExec.
+Require Import Urcu.Gp.GpQsbrExec.
 Import ListNotations.
 
 (* memb + sys_membarrier on TSO: when a grace period ends no registered reader that was inside a section when it began is still in that section *)
@@ -69,4 +70,11 @@ Theorem C01_qsbr_gp_waits_for_preexisting_sections :
     forall s : state, reach init s -> ph s = U_Idle -> forall r : nat, old_open (rd s r) = false.
 Proof. exact (@Urcu.Gp.GpQsbr.gp_qsbr_waits_for_preexisting_sections). Qed.
 Print Assumptions C01_qsbr_gp_waits_for_preexisting_sections.
+
+(* every action sequence accepted by the executable interpreter fed with the projected traces of src/urcu-qsbr.c keeps the qsbr model's invariant: whenever a grace period has ended, no registered reader is still in an implicit section that was open when the incremented counter became visible *)
+Theorem C01_accepted_qsbr_trace_satisfies_gp :
+    forall (regs : list nat) (l : list qact) (s : state),
+    qrun regs l (init_on regs) = Some s -> ph s = U_Idle -> forall r : nat, old_open (rd s r) = false.
+Proof. exact (@Urcu.Gp.GpQsbrExec.accepted_qsbr_trace_satisfies_gp). Qed.
+Print Assumptions C01_accepted_qsbr_trace_satisfies_gp.
 
